@@ -73,6 +73,17 @@ def seq_text(calls):
 
 
 def replay_obj(r, expected, got, oracle, prefix=None):
+    framed = r.get("seq", "-") == "w" or r.get("seq", "-").split(".")[0].endswith("w")
+    o = replay_obj0(r, expected, got, oracle, prefix)
+    if framed:
+        o["framed"] = True
+        o["buffers"] = ("every argument buffer is a window frame[24:24+n] of a larger live array filled with non-zero guard bytes, with 56 bytes of spare "
+                        "capacity behind it; after the call the whole arrays are compared (only the inside of the output window may change)")
+        o["how"] = o["how"].replace(" one <kind>", " onew <kind>").replace(" seq <file>", " seqw <file>")
+    return o
+
+
+def replay_obj0(r, expected, got, oracle, prefix=None):
     if prefix:
         return {"kind": r["kind"], "function": FUNC.get(r["kind"], r["kind"]), "sequence": prefix,
                 "arg_names": ARGN, "expected": expected, "got": got, "oracle": oracle,
@@ -150,7 +161,9 @@ def run(ctx):
         nt = nontrivial_key(r)
         prefix = None
         sq = None
-        if r["seq"] != "-":
+        if r["seq"] == "w":
+            nt = nt + ("window",)
+        elif r["seq"] != "-":
             sq = r["seq"].split(".")[0]
             seqs.setdefault(sq, []).append([r["kind"], r["a1"], r["a2"], r["a3"], r["a4"], r["a5"]])
             prefix = list(seqs[sq])
@@ -164,7 +177,9 @@ def run(ctx):
         if r["direct"] != "none":
             direct_checked += 1
         key = key_of(r) if prefix is None else "seq:" + hashlib.sha1(repr(prefix).encode()).hexdigest()[:16]
-        where = describe(r) if prefix is None else \
+        if r["seq"] == "w":
+            key += ":w"
+        where = (describe(r) + (" [arguments are windows of larger live buffers]" if r["seq"] == "w" else "")) if prefix is None else \
             "call %d of a sequence sharing its argument buffers [%s] - %s" % (len(prefix), seq_text(prefix), describe(r))
         if r["direct"] == "fail":
             C.violation(ctx, key, "%s: %s; implementation: %s %s" % (where, r["detail"], r["cls"], r["r1"][:80]),
@@ -205,15 +220,19 @@ def run(ctx):
                  "(server_nonce) leading zero bytes and oversize values; Encrypt/DecryptMessageWithTempKeys for every payload length 0..80 (thorough 0..400): the client's own "
                  "encryption read back by the client and by a reference peer, and the reference peer's ciphertext with the aligning padding 0..15 (random, 00, ff); malformed "
                  "ciphertexts; generateAESIGE/Encrypt/Decrypt for lengths 0..80 and auth keys around the 128/136 limits; SHA-1 lengths around block boundaries; "
+                 "IGE inputs of 65,127,128,129,192,255,256,257,300 blocks (thorough up to 1025), wrapper payloads of 2027..4076 bytes and messages of 2032..4100 bytes; "
+                 "about a third of the calls are repeated with every argument buffer handed over as a WINDOW frame[off:off+n] of a larger live array (non-zero guard "
+                 "bytes before and after, spare capacity behind the window) and the whole arrays compared after the call - nothing but the inside of the output "
+                 "window may change; "
                  "plus CALL SEQUENCES made in one process that reuse the same key / iv / input / output / message buffers and big.Int objects, overwritten in "
                  "place between calls (k1,k2,k1.. and iv1,iv2,iv1.. in one backing array, one-bit key changes, refused calls in between, output of one call fed to "
                  "the next, loops interleaved with the temp-key and message-level wrappers, random mixes over small value pools): every step is compared with the "
                  "model and the textbook IGE evaluated on the values at call time (ties C05_history_independent to the code). "
                  "distinct non-trivial = distinct (function, data length, buffer lengths, key/iv shape, leading-zero counts of the nonces, padding length)",
          "samples": samples, "input_distribution": stats, "disagreements": disagreements,
-         "direct_oracle_cases": direct_checked, "call_sequences": len(seqs), "calls_in_sequences": sum(len(v) for v in seqs.values()), "coqchk": coqchk or "thorough tier only",
+         "direct_oracle_cases": direct_checked, "windowed_calls": stats.get("windowed_calls", 0), "call_sequences": len(seqs), "calls_in_sequences": sum(len(v) for v in seqs.values()), "coqchk": coqchk or "thorough tier only",
          "projection": "result class ok/err/panic; bytes of the output buffer and of the caller's input buffer after the call (also after err/panic); "
-                       "key and iv bytes; never error texts or panic values"})
+                       "key and iv bytes; for windowed calls every byte of the caller's arrays around the slices passed in; never error texts or panic values"})
     return C.finish(ctx, "proof", cov, [
         "crypto/aes and crypto/sha1 compute the same functions as Prim/Aes256.v and Prim/Sha1.v (for which invertibility, lengths and byte ranges are proved)",
         "SHA-1 output is 20 bytes; SHA-1 does not collide between the payload and payload ++ (non-empty prefix of the <= 15 padding bytes): explicit hypothesis of C05_temp_roundtrip",
@@ -228,7 +247,7 @@ def replay(ctx, path):
         with open(sf, "w") as fo:
             for c in obj["sequence"]:
                 fo.write("\t".join(c) + "\n")
-        rc, out = C.sh([hb, "seq", sf], env=ctx.env())
+        rc, out = C.sh([hb, "seqw" if obj.get("framed") else "seq", sf], env=ctx.env())
         lines = [l.split("\t") for l in out.rstrip("\n").split("\n")]
         print("call sequence (buffers shared, overwritten in place): %s" % seq_text(obj["sequence"]))
         last = lines[-1] if lines and len(lines) == len(obj["sequence"]) else ["?", "-", "-", "fail", "harness produced %d result lines" % len(lines)]
@@ -252,12 +271,14 @@ def replay(ctx, path):
         print("replay names a broken obligation, re-running the full check")
         return run(ctx)
     hb = C.build_harness("root", pkg="./cmd/c05")
-    rc, out = C.sh([hb, "one", obj["kind"]] + list(obj["args"]), env=ctx.env())
+    rc, out = C.sh([hb, "onew" if obj.get("framed") else "one", obj["kind"]] + list(obj["args"]), env=ctx.env())
     f = out.rstrip("\n").split("\t")
     print("%s %s" % (obj.get("function"), dict(zip(obj.get("arg_names", []), obj["args"]))))
     print("oracle: %s" % obj.get("expected"))
     print("got: %s" % " ".join(f[:3]))
     bad = len(f) < 4 or f[3] == "fail"
+    if bad and len(f) > 4:
+        print("direct oracle: %s" % f[4])
     if not bad and f[3] == "none":
         # no direct oracle for this input: compare with the model again
         line = "\t".join(["r1", obj["kind"]] + list(obj["args"]) + f[:3] + ["none", "-"]) + "\n"
